@@ -63,6 +63,23 @@ static int mtx_on, lockn, unlockn, lockfail[MAXFAIL], nlockfail, unlockfail[MAXF
 static int last_refused_byte = -1;
 static int in_service;
 static long n_handler_calls, n_writes, n_trig_calls, n_reads, n_u_hold;
+/* running hashes (C12 differential inside the fuzz target) and the streaming C01 monitor */
+static uint64_t out_hash, cb_hash;
+static long mon_lines_terminated, mon_results_done;
+static int mon_line_nonblank, mon_prev_chunk_empty, mon_chunk_len;
+static char mon_chunk[8];
+#define HASH_INIT 1469598103934665603ull
+#define HASH_STEP(h, b) ((h) = ((h) ^ (uint64_t)(uint8_t)(b)) * 1099511628211ull)
+
+static void hash_bytes(uint64_t *h, const void *p, size_t n)
+{
+        const uint8_t *b = p;
+        size_t i;
+        for (i = 0; i < n; i++)
+                HASH_STEP(*h, b[i]);
+}
+
+static void hash_long(uint64_t *h, long v) { hash_bytes(h, &v, sizeof v); }
 static uint8_t *buf_pristine, *ubuf_pristine;
 static long world_violations;
 static char world_violation_text[256];
@@ -77,6 +94,22 @@ static FILE *out;
 void w_set_output(FILE *f) { out = f; }
 long w_violations(void) { return world_violations; }
 long w_stat(int which) { return which == 0 ? n_handler_calls : which == 1 ? n_writes : which == 2 ? n_trig_calls : n_reads; }
+uint64_t w_hash(int which)
+{
+        if (which == 0)
+                return out_hash;
+        if (which == 1)
+                return cb_hash;
+        {
+                /* final variable bytes */
+                uint64_t h = HASH_INIT;
+                int i, k;
+                for (i = 0; i < ncmd; i++)
+                        for (k = 0; k < wc[i].nvar; k++)
+                                hash_bytes(&h, vars[i][k].data, vars[i][k].data_size);
+                return h;
+        }
+}
 const char *w_violation_text(void) { return world_violation_text; }
 
 static void emit(const char *fmt, ...)
@@ -208,6 +241,27 @@ static int io_w(char c)
         }
         last_refused_byte = -1;
         n_writes++;
+        HASH_STEP(out_hash, c);
+        if (flags & WF_C01MON) {
+                if (c == '\n') {
+                        int len = mon_chunk_len;
+                        if (len > 0 && len <= 7 && mon_chunk[len - 1] == '\r')
+                                len--;
+                        if (mon_chunk_len <= 7 && mon_prev_chunk_empty &&
+                            ((len == 2 && memcmp(mon_chunk, "OK", 2) == 0) || (len == 5 && memcmp(mon_chunk, "ERROR", 5) == 0))) {
+                                mon_results_done++;
+                                if (mon_results_done > mon_lines_terminated)
+                                        violation("c01-result-code-without-terminated-line");
+                        }
+                        mon_prev_chunk_empty = (len == 0);
+                        mon_chunk_len = 0;
+                } else {
+                        if (mon_chunk_len < 7)
+                                mon_chunk[mon_chunk_len] = c;
+                        if (mon_chunk_len < 100)
+                                mon_chunk_len++;
+                }
+        }
         emit("W %ld %02x\n", stepno, (uint8_t)c);
         return 1;
 }
@@ -231,6 +285,17 @@ static int io_r(char *c)
         }
         activity = 1;
         n_reads++;
+        if ((flags & WF_C01MON) && mon_results_done < mon_lines_terminated)
+                violation("c01-read-ahead-before-result-code-complete");
+        if (flags & WF_C01MON) {
+                if (input[inpos] == '\n') {
+                        if (mon_line_nonblank)
+                                mon_lines_terminated++;
+                        mon_line_nonblank = 0;
+                } else if (input[inpos] != '\r') {
+                        mon_line_nonblank = 1;
+                }
+        }
         *c = (char)input[inpos];
         emit("R %ld %zu %02x\n", stepno, inpos, input[inpos]);
         if (input[inpos] == '\n') {
@@ -471,6 +536,7 @@ static cat_return_state h_text(const struct cat_command *c, uint8_t *d, size_t *
         }
         hexout(d, *n < m ? *n : m);
         emit(" %d\n", code);
+        hash_long(&cb_hash, 100 + kind + 10 * fsm); hash_long(&cb_hash, ci); hash_long(&cb_hash, (long)seen); hash_bytes(&cb_hash, d, *n < m ? *n : m); hash_long(&cb_hash, code);
         if (fsm == 1 && code == CAT_RETURN_STATE_HOLD)
                 n_u_hold++;   /* parks the command FSM (outside every statement, DESIGN 4.6): it may then emit a result code of its own */
         if (s && s->act)
@@ -501,6 +567,7 @@ static cat_return_state h_write(const struct cat_command *c, const uint8_t *d, s
         s = next_step(ci, 0, 0);
         code = s ? s->code : CAT_RETURN_STATE_OK;
         emit("- %d\n", code);
+        hash_long(&cb_hash, 200); hash_long(&cb_hash, ci); hash_long(&cb_hash, (long)n); hash_long(&cb_hash, (long)a); hash_bytes(&cb_hash, d, n); hash_long(&cb_hash, code);
         if (s && s->act)
                 do_act(s->act, s->a1, s->a2, s->a3, s->a3len);
         return (cat_return_state)code;
@@ -516,6 +583,7 @@ static cat_return_state h_run(const struct cat_command *c)
                 violation("handler-outside-lock");
         code = s ? s->code : CAT_RETURN_STATE_OK;
         emit("H %ld c %d n - 0 0 0 3 - %d\n", stepno, ci, code);
+        hash_long(&cb_hash, 300); hash_long(&cb_hash, ci); hash_long(&cb_hash, code);
         if (s && s->act)
                 do_act(s->act, s->a1, s->a2, s->a3, s->a3len);
         return (cat_return_state)code;
@@ -554,6 +622,7 @@ static int v_read(const struct cat_variable *v)
         w = &wc[ci].var[vi];
         r = (++w->rcalls == w->rfail) ? fail_value(ci + vi + w->rcalls) : 0;
         emit("V %ld %d %d r 0 %d\n", stepno, ci, vi, r);
+        hash_long(&cb_hash, 400); hash_long(&cb_hash, ci); hash_long(&cb_hash, vi); hash_long(&cb_hash, r);
         return r;
 }
 
@@ -571,6 +640,7 @@ static int v_write(const struct cat_variable *v, size_t n)
         w = &wc[ci].var[vi];
         r = (++w->wcalls == w->wfail) ? fail_value(ci + vi + w->wcalls + 1) : 0;
         emit("V %ld %d %d w %zu %d\n", stepno, ci, vi, n, r);
+        hash_long(&cb_hash, 500); hash_long(&cb_hash, ci); hash_long(&cb_hash, vi); hash_long(&cb_hash, (long)n); hash_long(&cb_hash, r);
         return r;
 }
 
@@ -613,6 +683,10 @@ void w_reset(void)
         free(buf); free(ubuf); free(buf_shadow); free(ubuf_shadow); free(buf_pristine); free(ubuf_pristine);
         buf = ubuf = buf_shadow = ubuf_shadow = buf_pristine = ubuf_pristine = NULL;
         n_handler_calls = n_writes = n_trig_calls = n_reads = n_u_hold = 0;
+        out_hash = cb_hash = HASH_INIT;
+        mon_lines_terminated = mon_results_done = 0;
+        mon_line_nonblank = mon_chunk_len = 0;
+        mon_prev_chunk_empty = 0;
         bufsz = ubufsz = ccap = ucap = 0;
         free(input);
         input = NULL;
@@ -997,6 +1071,10 @@ void w_run(long budget, long stall_n)
                         }
 #endif
                 }
+        if ((flags & WF_C01MON) && strcmp(why, "quiescent") == 0 && mon_results_done != mon_lines_terminated)
+                violation("c01-result-code-count");
+        if ((flags & WF_C01MON) && strcmp(why, "quiescent") != 0)
+                violation("c01-no-quiescence");
         /* half isolation (C03): without any event the unsolicited region is never touched, without any input byte the
          * command region is never touched */
         {
